@@ -14,18 +14,22 @@ macro_rules! stubset {
 			pub const ALLOW: usize = $allow;
 			pub unsafe fn alloc(l: Layout) -> *mut u8 {
 				assert!(l.size() <= ALLOW, "heap request exceeds the allowance for this input");
+				kani::assume(l.size() <= ALLOW); // assert-and-cut: an over-sized request is reported above, its (huge) object is not modelled further
 				__rust_alloc(l.size(), l.align())
 			}
 			pub unsafe fn alloc_zeroed(l: Layout) -> *mut u8 {
 				assert!(l.size() <= ALLOW, "heap request exceeds the allowance for this input");
+				kani::assume(l.size() <= ALLOW);
 				__rust_alloc_zeroed(l.size(), l.align())
 			}
 			pub unsafe fn realloc(p: *mut u8, l: Layout, new_size: usize) -> *mut u8 {
 				assert!(new_size <= ALLOW, "heap request exceeds the allowance for this input");
+				kani::assume(new_size <= ALLOW);
 				__rust_realloc(p, l.size(), l.align(), new_size)
 			}
 			pub unsafe fn realloc_nonnull(p: NonNull<u8>, l: Layout, new_size: usize) -> *mut u8 {
 				assert!(new_size <= ALLOW, "heap request exceeds the allowance for this input");
+				kani::assume(new_size <= ALLOW);
 				__rust_realloc(p.as_ptr(), l.size(), l.align(), new_size)
 			}
 		}
@@ -49,7 +53,45 @@ macro_rules! with_stubs {
 		#[kani::stub(alloc::alloc::alloc_zeroed, crate::stubs::$set::alloc_zeroed)]
 		#[kani::stub(alloc::alloc::realloc, crate::stubs::$set::realloc)]
 		#[kani::stub(alloc::alloc::realloc_nonnull, crate::stubs::$set::realloc_nonnull)]
-		pub fn $name() $body
+		pub fn $name() {
+			// native replay (Kani playback does not apply stubs): the same allowance is enforced by a real global allocator
+			#[cfg(feature = "pb_alloc")]
+			crate::stubs::native::set_allowance(crate::stubs::$set::ALLOW);
+			let _done: () = $body;
+			#[cfg(feature = "pb_alloc")]
+			crate::stubs::native::clear_allowance();
+		}
 	};
+}
+
+/// Native counterpart of the stub sets for replaying allocator-allowance counterexamples on the real build:
+/// a `#[global_allocator]` wrapper around the system allocator that refuses (returns null -> the process aborts with
+/// "memory allocation of N bytes failed") any request above the allowance the harness announced.
+#[cfg(feature = "pb_alloc")]
+pub mod native {
+	extern crate std;
+	use core::alloc::{GlobalAlloc, Layout};
+	use core::sync::atomic::{AtomicUsize, Ordering};
+	static ALLOWANCE: AtomicUsize = AtomicUsize::new(usize::MAX);
+	pub fn set_allowance(a: usize) { ALLOWANCE.store(a, Ordering::SeqCst) }
+	pub fn clear_allowance() { ALLOWANCE.store(usize::MAX, Ordering::SeqCst) }
+	pub struct Checking;
+	unsafe impl GlobalAlloc for Checking {
+		unsafe fn alloc(&self, l: Layout) -> *mut u8 {
+			if l.size() > ALLOWANCE.load(Ordering::SeqCst) { clear_allowance(); return core::ptr::null_mut() }
+			std::alloc::System.alloc(l)
+		}
+		unsafe fn alloc_zeroed(&self, l: Layout) -> *mut u8 {
+			if l.size() > ALLOWANCE.load(Ordering::SeqCst) { clear_allowance(); return core::ptr::null_mut() }
+			std::alloc::System.alloc_zeroed(l)
+		}
+		unsafe fn realloc(&self, p: *mut u8, l: Layout, n: usize) -> *mut u8 {
+			if n > ALLOWANCE.load(Ordering::SeqCst) { clear_allowance(); return core::ptr::null_mut() }
+			std::alloc::System.realloc(p, l, n)
+		}
+		unsafe fn dealloc(&self, p: *mut u8, l: Layout) { std::alloc::System.dealloc(p, l) }
+	}
+	#[global_allocator]
+	static GLOBAL: Checking = Checking;
 }
 
